@@ -1,9 +1,9 @@
 package main
 
 import (
-	"reflect"
 	"encoding/json"
 	"fmt"
+	"reflect"
 	"strings"
 
 	stackage "github.com/JesseCoretta/go-stackage"
